@@ -297,8 +297,7 @@ def rItem (it : Item) (last : Bool) : R :=
   | .exception s => rLit cs!"exception" +> rB1 +> rStructLike s last
   | .service s => rService s last
 
-/-- the document: `[blank] (item [separator] blank)*`.  (For an empty declaration list this is a
-blank only; `File::parse` rejects such a text unless it is empty — finding DI1.) -/
+/-- the document: `[blank] (item [separator] blank)*`; for an empty declaration list a blank only. -/
 def rFile (f : File) : R := rB0 +> rSlots rItem f.items
 
 def render (l : Layout) (f : File) : List Char := (rFile f l).1
